@@ -58,7 +58,7 @@ json refusal(Rng &r, const std::vector<OptRef> &refs, int cl)
 		s["name"] = ref.decl["n"];
 		switch (r.below(11)) {
 		case 0: // bulk set, unconvertible element at position p
-			if (!value_opt || t == "str")
+			if (!value_opt || t == "str" || ref.decl.value("pcb", 0))
 				continue;
 			{
 				int n = list ? (int)r.range(1, 4) : 1;
@@ -129,12 +129,27 @@ json refusal(Rng &r, const std::vector<OptRef> &refs, int cl)
 				if (!(fl & F_MULTI))
 					continue;
 				s["op"] = "rmsec";
-				s["name"] = ref.decl["n"].get<std::string>() + ((fl & F_TITLE) ? "=no-such-title" : "=77");
+				{
+					static const char *badidx[] = {"=77", "=1st", "=0x", "=2.0", "=-1", "= 1", "=1 "};
+					s["name"] = ref.decl["n"].get<std::string>() + ((fl & F_TITLE) ? "=no-such-title" : badidx[r.below(7)]);
+				}
 				break;
 			}
 			s["refusal"] = "remove_missing";
 			return s;
 		case 6: // set-from-text, unconvertible
+			if (value_opt && ref.decl.value("pcb", 0)) {
+				// the option's value-parsing callback refuses the text
+				bool bulk = r.chance(1, 2);
+				s["op"] = bulk ? "setmulti" : "setopt";
+				if (bulk)
+					s["vals"] = json::array({"cbtext"});
+				else
+					s["v"] = "cbtext";
+				s["fcb"] = 1;
+				s["refusal"] = list ? "callback_refuses_text_list" : "callback_refuses_text_scalar";
+				return s;
+			}
 			if (!value_opt || t == "str")
 				continue;
 			s["op"] = "setopt";
@@ -195,6 +210,7 @@ json generate(uint64_t seed, uint64_t idx, int tier)
 	sg.max_opts = 6;
 	sg.max_depth = 2;
 	sg.vcb2 = true;
+	sg.pcb = true; // some options convert their text through a value-parsing callback, which may refuse
 	json schema = gen_schema(r, sg);
 	plan["schemas"] = json::array({schema});
 	int flags = r.chance(1, 2) ? F_COMMENTS : 0;
